@@ -8,7 +8,7 @@ for d in "$@"; do
   case $d in r5-*) id=${d#r5-}; W=/tmp/seed5-$id; D=/tmp/seed5-$id-demo ;; r4-*) id=${d#r4-}; W=/tmp/seed4-$id; D=/tmp/seed4-$id-demo ;; r3-*) id=${d#r3-}; W=/tmp/seed3-$id; D=/tmp/seed3-$id-demo ;; r2-*) id=${d#r2-}; W=/tmp/seed2-$id; D=/tmp/seed2-$id-demo ;; *) id=$d; W=/tmp/seed-$id; D=/tmp/seed-$id-demo ;; esac
   git -C /repo worktree remove --force $W >/dev/null 2>&1; rm -rf $W $D
   git -C /repo worktree add --detach $W HEAD >/dev/null 2>&1 || { echo "$d: cannot create worktree"; continue; }
-  mkdir -p $D/tmp; cp $S/demo_test.go $S/patch.diff $D/
+  mkdir -p $D/tmp; cp $S/*_test.go $S/patch.diff $D/
   export TMPDIR=$D/tmp
   git -C $W apply $S/patch.diff || { echo "$d: patch does not apply"; continue; }
   (cd $W && go build ./...) || { echo "$d: BUILD FAILS"; continue; }
